@@ -9,6 +9,7 @@ import (
 
 	storetypes "cosmossdk.io/store/types"
 	sdk "github.com/cosmos/cosmos-sdk/types"
+	"github.com/cosmos/cosmos-sdk/types/query"
 
 	ophosttypes "github.com/initia-labs/OPinit/x/ophost/types"
 
@@ -245,6 +246,57 @@ func (c11Sys) Check(s *c11State) *engine.Violation {
 				seenFinalGap = true
 			}
 		}
+		// LastFinalizedOutput = the highest final index of the reference log (0 / empty if none)
+		wantLF := uint64(0)
+		for i, o := range lg.Outs {
+			if o.final(now) {
+				wantLF = uint64(i + 1)
+			}
+		}
+		lf, err := s.w.Q.LastFinalizedOutput(s.ctx, &ophosttypes.QueryLastFinalizedOutputRequest{BridgeId: b})
+		if err != nil {
+			return viol("last-finalized-query-is-the-final-prefix-end", "bridge %d: LastFinalizedOutput: %v", b, err)
+		}
+		if lf.OutputIndex != wantLF {
+			return viol("last-finalized-query-is-the-final-prefix-end", "bridge %d: LastFinalizedOutput reports index %d, the reference log's last final output is %d", b, lf.OutputIndex, wantLF)
+		}
+		if wantLF > 0 && !bytes.Equal(lf.OutputProposal.OutputRoot, lg.Outs[wantLF-1].Root) {
+			return viol("last-finalized-query-is-the-final-prefix-end", "bridge %d: LastFinalizedOutput(%d) carries another root", b, wantLF)
+		}
+		// paged walks (page size 1 and 2, forward and reverse) list exactly the same outputs
+		for _, lim := range []uint64{1, 2} {
+			for _, rev := range []bool{false, true} {
+				var got []uint64
+				var key []byte
+				for guard := 0; guard < 64; guard++ {
+					pr, err := s.w.Q.OutputProposals(s.ctx, &ophosttypes.QueryOutputProposalsRequest{BridgeId: b, Pagination: &query.PageRequest{Key: key, Limit: lim, Reverse: rev}})
+					if err != nil {
+						return viol("paged-output-listing-equals-the-log", "bridge %d: paged OutputProposals(limit=%d,reverse=%v): %v", b, lim, rev, err)
+					}
+					for _, op := range pr.OutputProposals {
+						if op.BridgeId != b {
+							return viol("paged-output-listing-equals-the-log", "bridge %d: paged listing returned an output of bridge %d", b, op.BridgeId)
+						}
+						got = append(got, op.OutputIndex)
+					}
+					if pr.Pagination == nil || len(pr.Pagination.NextKey) == 0 {
+						break
+					}
+					key = pr.Pagination.NextKey
+				}
+				ok := uint64(len(got)) == next-1
+				for i := 0; ok && i < len(got); i++ {
+					w := uint64(i + 1)
+					if rev {
+						w = next - 1 - uint64(i)
+					}
+					ok = got[i] == w
+				}
+				if !ok {
+					return viol("paged-output-listing-equals-the-log", "bridge %d: paged walk (limit=%d,reverse=%v) lists %v, the log holds 1..%d", b, lim, rev, got, next-1)
+				}
+			}
+		}
 		for i := uint64(0); i <= next+1; i++ {
 			_, err := s.w.Q.OutputProposal(s.ctx, &ophosttypes.QueryOutputProposalRequest{BridgeId: b, OutputIndex: i})
 			exists := err == nil
@@ -278,7 +330,7 @@ func init() {
 			}
 			res.Absorb("c11", rep)
 			res.Coverage["alphabet"] = "Propose(b∈{1,2}; idx∈{next-1,next,next+1}; l2∈{last-1,last,last+1,last+3}; by∈{proposer,stranger}), Delete(b; idx∈0..next; by∈{challenger,stranger}), Advance∈{0,4s,period=10s}"
-			res.Coverage["oracle"] = "per-bridge reference log compared with OutputProposals/OutputProposal queries, next index and raw store in every state; acceptance implies the model's guard; rejection implies unchanged digest"
+			res.Coverage["oracle"] = "per-bridge reference log compared with OutputProposals (full, and paged with page size 1 and 2 forward and reverse), OutputProposal and LastFinalizedOutput queries, next index and raw store in every state; acceptance implies the model's guard; rejection implies unchanged digest"
 			res.Assumptions = []string{"one message per transaction with runTx semantics (discarded on error)", "two bridges, period 10s, histories up to the completed depth"}
 			for _, k := range []string{"Propose/accepted", "Propose/rejected", "Delete/accepted-suffix=1", "Delete/accepted-suffix>=2", "Delete/rejected-final"} {
 				res.Require(res.OutcomeCount("c11", k) > 0, "outcome %s never occurred", k)
